@@ -239,6 +239,12 @@ PROPS.update({
 })
 
 A_STALE = "A-stale: StaleNode::stale_key_values (filter + itertools sort) is assumed to yield exactly the member's entries above the start version in strictly ascending version order; SortedStaleNodes::into_iter (BTreeMap + shuffle) is modelled as some sequence of members with distinct ids; both are exercised on the real functions by the bounded drivers c07_window / c14_scope"
+for _p in ("C07", "C14", "C05", "C12"):
+    PROPS[_p]["verus"].append({"unit": U2, "fns": ["ClusterState::offer_stale_nodes", "lemma_has_id_push", "sender_decision", "staleness_score"]})
+    if A_STALE not in PROPS[_p]["assumptions"]:
+        PROPS[_p]["assumptions"].append(A_STALE)
+PROPS["C07"]["level_text"] += " The first loop of that function (sliced, R10) is proved to offer exactly the members that are not scheduled for deletion and whose copy is ahead of the peer's digest, each once, with the start version of the sender-side decision."
+PROPS["C12"]["level_text"] += " The member-selection loop of compute_partial_delta_respecting_mtu is proved never to offer a member of the scheduled-for-deletion set."
 for _p in ("C07", "C03", "C14", "C02"):
     PROPS[_p]["verus"].append({"unit": U2, "fns": ["serialize_stale_nodes", "lemma_prefix_is_ok", "lemma_ok_window", "lemma_ok_entries", "lemma_ok_sorted"]})
     PROPS[_p]["assumptions"].append(A_STALE)
